@@ -882,3 +882,159 @@ def rule_cfround(ctx, R, FI):
             R.ok(inst, where)
     if n < 1000:
         raise AnalysisBroken('X86-CFR-BITS: only %d cases' % n)
+
+
+# ---------------------------------------------------------------------------------------------------------------------------
+# floating-point instructions: uninterpreted packed-double operations on xmm0..15
+
+FP_HANDLERS = ('FSWAP_R', 'FADD_R', 'FADD_M', 'FSUB_R', 'FSUB_M', 'FSCAL_R', 'FMUL_R', 'FDIV_M', 'FSQRT_R')
+FP_COMM = ('add', 'mul', 'xor', 'and', 'or')
+
+
+def fop(name, *args):
+    if name in FP_COMM:
+        args = tuple(sorted(args, key=repr))
+    return (name,) + tuple(args)
+
+
+class FpMachine(MemMachine):
+    """xmm0-3 = f0-3, xmm4-7 = e0-3, xmm8-11 = a0-3, xmm12 scratch, xmm13 = mantissa mask, xmm14 = exponent mask of the program, xmm15 = scale mask
+    (what the prologue and the loop head load into xmm13-15 is the template's business: DS-ASM / SPEC rules)"""
+
+    def __init__(self):
+        MemMachine.__init__(self)
+        self.v = {}
+        for i in range(4):
+            self.v[i] = ('f', i)
+            self.v[4 + i] = ('e', i)
+            self.v[8 + i] = ('a', i)
+        self.v[13], self.v[14], self.v[15] = ('mant',), ('emask',), ('scale',)
+
+    def vget(self, n):
+        return self.v.get(n, ('undef', n))
+
+    def step(self, mn, ops):
+        o = [x.strip() for x in ops.split(',')] if ops else []
+        xr = lambda t: int(t[3:]) if re.match(r'^xmm\d+$', t) else None
+        if mn in ('addpd', 'subpd', 'mulpd', 'divpd', 'xorps', 'xorpd', 'andps', 'andpd', 'orps', 'orpd') and len(o) == 2 and xr(o[0]) is not None and xr(o[1]) is not None:
+            nm = {'addpd': 'add', 'subpd': 'sub', 'mulpd': 'mul', 'divpd': 'div', 'xorps': 'xor', 'xorpd': 'xor', 'andps': 'and', 'andpd': 'and', 'orps': 'or', 'orpd': 'or'}[mn]
+            self.v[xr(o[0])] = fop(nm, self.vget(xr(o[0])), self.vget(xr(o[1])))
+            return True
+        if mn == 'sqrtpd' and len(o) == 2 and xr(o[0]) is not None and xr(o[1]) is not None:
+            self.v[xr(o[0])] = ('sqrt', self.vget(xr(o[1])))
+            return True
+        if mn == 'shufpd' and len(o) == 3 and xr(o[0]) is not None and xr(o[1]) is not None:
+            imm = int(o[2], 0)
+            a, b = self.vget(xr(o[0])), self.vget(xr(o[1]))
+            self.v[xr(o[0])] = ('swap', a) if (a == b and imm == 1) else ('shuf', a, b, imm)
+            return True
+        if mn == 'cvtdq2pd' and len(o) == 2 and xr(o[0]) is not None and 'PTR' in o[1]:
+            a = self.addr(o[1].replace('XMMWORD', 'QWORD'))
+            if a is None:
+                return False
+            self.v[xr(o[0])] = ('cvt', a.canon())
+            return True
+        return MemMachine.step(self, mn, ops)
+
+
+def fp_show(t):
+    if not isinstance(t, tuple):
+        return str(t)
+    if t[0] in ('f', 'e', 'a'):
+        return '%s%d' % (t[0], t[1])
+    if t[0] in ('mant', 'emask', 'scale'):
+        return {'mant': 'mantissaMask', 'emask': 'exponentMask', 'scale': 'scaleMask'}[t[0]]
+    if t[0] == 'cvt':
+        return 'cvt(mem[%s])' % T.term_show(Lin(t[1][0], dict(t[1][1])), None)
+    if t[0] == 'undef':
+        return 'xmm%d(unset)' % t[1]
+    return '%s(%s)' % (t[0], ', '.join(fp_show(x) if isinstance(x, tuple) else str(x) for x in t[1:]))
+
+
+def rule_fp_hsem(ctx, R):
+    F, hs = jit.handlers(ctx, 'x86')
+    cls = 'randomx::JitCompilerX86'
+    R.rule('X86-FP-HSEM', 'for the nine floating-point instructions the bytes the x86-64 handler emits, disassembled and interpreted on a register file of uninterpreted packed-double terms (xmm0-3 = f, xmm4-7 = e, xmm8-11 = a), '
+           'apply the operation of specification 5.3 to the right registers: f[dst] +/- a[src], f[dst] xor scaleMask, e[dst] * a[src], sqrt(e[dst]), the lane swap of f / e, and for the memory forms the operand converted from the 8 bytes at '
+           'scratchpad + ((src + sext(imm32)) & mask), masked with the mantissa / exponent masks for FDIV_M; no other f / e / a register changes', min_instances=1000)
+    R.saw(config='K0', unit='src/jit_compiler_x86.cpp')
+    K = {'L1': F.const('randomx::ScratchpadL1Mask'), 'L2': F.const('randomx::ScratchpadL2Mask')}
+    cases = []
+    for name in FP_HANDLERS:
+        if name not in hs:
+            raise AnalysisBroken('X86-FP-HSEM: handler of %s not found' % name)
+        h = hs[name].f
+        R.saw(fn=h['q'])
+        for d in range(8):
+            for s in range(8):
+                for modmem in ((0, 1, 3) if name.endswith('_M') else (0,)):
+                    for imm in ((0, 0x7FFFFFF8, 0x80000000, 0xFFFFFFFF) if name.endswith('_M') and (d + s) % 4 == 0 else (0x12345678,)):
+                        fields = {'dst': KB.const(8, d), 'src': KB.const(8, s), 'mod': KB.const(8, modmem)}
+                        ov = {'randomx::Instruction::getImm32': KB.const(32, imm), 'randomx::Instruction::getModMem': KB.const(32, modmem), 'randomx::Instruction::getModCond': KB.const(32, 0),
+                              'randomx::Instruction::getModShift': KB.const(32, 0)}
+                        ex = X86Exec(F, cls, fields, ov)
+                        ex.run(h, [None, KB.const(32, 7)])
+                        cases.append((name, h, d, s, imm, modmem, tuple(ex.bytes)))
+    dis = disassemble([c[-1] for c in cases if c[-1]])
+    n = 0
+    for name, h, d, s, imm, modmem, code in cases:
+        n += 1
+        where = '%s:%d' % (h['file'], h['line'])
+        m = FpMachine()
+        tr, bad, pos = [], None, 0
+        if not code:
+            bad = 'nothing is emitted'
+        for mn, ops, nb, off in (dis.get(code, []) if code else []):
+            tr.append((mn + ' ' + ops).strip())
+            if off != pos or off + nb > len(code) or mn == '(bad)':
+                bad = 'the bytes %s do not decode to whole instructions (%s)' % (bytes(code).hex(), ' ; '.join(tr))
+                break
+            pos = off + nb
+            if not m.step(mn, ops):
+                bad = 'after `%s` the handler emits `%s %s`, which is outside the packed-double subset' % (' ; '.join(tr[:-1]), mn, ops)
+                break
+        if bad is None and pos != len(code):
+            bad = 'the bytes %s do not decode to whole instructions' % bytes(code).hex()
+        if bad is None:
+            exp = {}
+            for i in range(4):
+                exp[i], exp[4 + i], exp[8 + i] = ('f', i), ('e', i), ('a', i)
+            fd, fs = d % 4, s % 4
+            simm = const(imm | (0xffffffff00000000 if imm >> 31 else 0))
+            cv = ('cvt', add(atom(('spad',)), and_(add(atom(('reg', s)), simm), const(K['L1'] if modmem else K['L2']))).canon())
+            if name == 'FSWAP_R':
+                exp[d] = ('swap', exp[d])
+            elif name == 'FADD_R':
+                exp[fd] = fop('add', ('f', fd), ('a', fs))
+            elif name == 'FADD_M':
+                exp[fd] = fop('add', ('f', fd), cv)
+            elif name == 'FSUB_R':
+                exp[fd] = ('sub', ('f', fd), ('a', fs))
+            elif name == 'FSUB_M':
+                exp[fd] = ('sub', ('f', fd), cv)
+            elif name == 'FSCAL_R':
+                exp[fd] = fop('xor', ('f', fd), ('scale',))
+            elif name == 'FMUL_R':
+                exp[4 + fd] = fop('mul', ('e', fd), ('a', fs))
+            elif name == 'FDIV_M':
+                exp[4 + fd] = ('div', ('e', fd), fop('or', fop('and', cv, ('mant',)), ('emask',)))
+            elif name == 'FSQRT_R':
+                exp[4 + fd] = ('sqrt', ('e', fd))
+            for i in range(12):
+                if m.vget(i) != exp[i]:
+                    bad = 'xmm%d = %s after `%s` (specification: %s)' % (i, fp_show(m.vget(i)), ' ; '.join(tr), fp_show(exp[i]))
+                    break
+            if bad is None:
+                for i in range(8):
+                    if m.get(8 + i) != atom(('reg', i)):
+                        bad = 'integer register r%d changed by a floating-point instruction (`%s`)' % (i, ' ; '.join(tr))
+                        break
+            if bad is None and m.stores:
+                bad = 'a store is emitted'
+        inst = '%s dst=%d src=%d%s' % (name, d, s, ' mod.mem=%d imm32=%#x' % (modmem, imm) if name.endswith('_M') else '')
+        if bad:
+            R.violation(inst, where, expected='as in specification 5.3', found=bad)
+        else:
+            R.ok(inst, where)
+    if n < 1000:
+        raise AnalysisBroken('X86-FP-HSEM: only %d cases evaluated' % n)
